@@ -69,12 +69,21 @@ class ConservationOracle(FOracle):
         self.full_seen = False
         self.sp_in = {}
         self.sp_last = {}
+        self.exc_seen = None
+        self.pending_v = []
 
     def v(self, sig, msg):
-        self.res.violate(sig, msg)
+        if self.exc_seen is not None:
+            # a store operation has raised inside a node: if that exception goes on to crash the run (C20's domain) the
+            # half-done operation is not a conservation verdict; if the run survives it, it is
+            self.pending_v.append((sig, msg))
+        else:
+            self.res.violate(sig, msg)
         self.dead = True
 
     def on_entry(self, f, e):
+        if e.exc is not None and e.op in ("put", "get") and self.exc_seen is None:
+            self.exc_seen = (e.t, e.op, e.edge)
         if self.dead or e.exc is not None or e.op not in ("put", "get"):
             return
         it = e.item
@@ -150,6 +159,21 @@ class ConservationOracle(FOracle):
                     return
                 seen[xi] = pi
                 self.packed_in[xi] = pi
+        # an item that was packed in a pallet and is no longer in it is being unpacked by the splitter that holds the pallet
+        # (it then counts as inside that splitter); anywhere else it has left its only place without arriving in another
+        for xi, pi in list(self.packed_in.items()):
+            if seen.get(xi) == pi:
+                continue
+            ploc = self.loc.get(pi)
+            if ploc is not None and ploc[0] == "node" and f.node_spec[ploc[1]]["type"] == "Splitter":
+                self.loc[xi] = ploc
+                del self.packed_in[xi]
+                continue
+            if xi in seen:
+                continue          # moved to another pallet: the "at most one pallet" clause above owns that
+            self.v(("missing", "Pallet"), "item %s was packed in pallet %s (now at %s) and is no longer in it, in no edge and in no other "
+                   "pallet (t=%s)" % (self.obj[xi].id if xi in self.obj else "?", getattr(self.pallets.get(pi), "id", "?"), ploc, f.env.now))
+            return
         # packed items must not be inside an edge on their own
         for xi, pi in self.packed_in.items():
             if self.loc.get(xi, ("?",))[0] == "edge":
@@ -213,6 +237,9 @@ class ConservationOracle(FOracle):
         self.on_entry = counting
 
     def finish(self, f):
+        if self.pending_v and not f.crashed:
+            for sig, msg in self.pending_v:
+                self.res.violate(sig, msg)
         if self.dead or f.crashed or f.livelock or f.build_error:
             return
         spec = f.spec
